@@ -237,7 +237,7 @@ Lemma exec_op_yank rows e y a1 a2 t k r2 o2 cl cc pc :
   let g := vc_region b k (v_row s) o1 r2 o2 in
   exec_op rows e y a1 Oy a2 t [] =
   Some (finish rows b (reg_put (s_regs e) y (flat (region_text b g)) (g_ln g))
-               (vs_pos (vs_mot s cl cc pc) (g_r1 g) (if g_ln g then v_off s else g_o1 g)) (negb (g_ln g))).
+               (vs_pos (vs_mot s cl cc pc) (g_r1 g) (if g_ln g then v_off s else g_o1 g)) (negb (g_ln g && (v_row s =? g_r1 g)))).
 Proof. intros b s o1 E g. unfold exec_op. fold b s o1. rewrite E. reflexivity. Qed.
 Lemma exec_op_delete rows e y a1 a2 t k r2 o2 cl cc pc :
   let b := s_buf e in let s := s_vs e in
@@ -1271,3 +1271,41 @@ Proof.
   apply ren_noeol_id; [exact Wn|]. unfold off_ok, slen. rewrite app_length. unfold nb. rewrite !app_length, firstn_length, skipn_length.
   cbn [length]. lia.
 Qed.
+
+(* ---------- the buffer read from a valid file image is valid ---------- *)
+Lemma split_lines_nonl bs : Forall (fun x => x <> 10%N) bs -> forall rest cur,
+  split_lines_f (bs ++ rest) cur = split_lines_f rest (rev bs ++ cur).
+Proof.
+  induction 1 as [|x bs Hx _ IH]; intros rest cur; cbn [app split_lines_f rev]; [reflexivity|].
+  destruct (N.eqb_spec x 10); [contradiction|]. rewrite IH, <- app_assoc. reflexivity.
+Qed.
+Lemma encode_nonl k : k <> 10%N -> Forall (fun x => x <> 10%N) (encode k).
+Proof.
+  intro H. unfold encode. destruct (N.ltb_spec k 128); [repeat constructor; exact H|].
+  destruct (N.ltb_spec k 2048); [|destruct (N.ltb_spec k 65536)]; repeat constructor; lia.
+Qed.
+Lemma valid_chars ks : Forall scalar ks -> valid (chars ks).
+Proof. intro H. exists ks. split; [exact H|reflexivity]. Qed.
+Lemma split_lines_valid ks : Forall scalar ks -> forall cks, Forall scalar cks ->
+  Forall valid (split_lines_f (chars ks) (rev (chars cks))).
+Proof.
+  induction 1 as [|k ks Hk Hks IH]; intros cks Hc.
+  - cbn [chars flat_map split_lines_f]. destruct (rev (chars cks)) eqn:E; [constructor|]. rewrite <- E. constructor; [|constructor].
+    cbn [rev]. rewrite rev_involutive. replace (chars cks ++ [10%N]) with (chars (cks ++ [10%N])) by (rewrite chars_app; reflexivity).
+    apply valid_chars. apply Forall_app. split; [exact Hc|]. repeat constructor; unfold scalar; lia.
+  - rewrite chars_cons. destruct (N.eq_dec k 10) as [->|Hne].
+    + change (encode 10) with [10%N]. cbn [app split_lines_f N.eqb Pos.eqb]. constructor.
+      * cbn [rev]. rewrite rev_involutive. replace (chars cks ++ [10%N]) with (chars (cks ++ [10%N])) by (rewrite chars_app; reflexivity).
+        apply valid_chars. apply Forall_app. split; [exact Hc|]. repeat constructor; unfold scalar; lia.
+      * apply (IH []). constructor.
+    + rewrite split_lines_nonl by (apply encode_nonl, Hne). rewrite <- rev_app_distr.
+      replace (chars cks ++ encode k) with (chars (cks ++ [k])) by (rewrite chars_app; cbn [chars flat_map]; rewrite app_nil_r; reflexivity).
+      apply IH. apply Forall_app. split; [exact Hc|]. apply Forall_cons; [exact Hk|apply Forall_nil].
+Qed.
+Lemma buf_of_bytes_valid s : valid s -> buf_valid (buf_of_bytes s).
+Proof.
+  intros (ks & Hks & ->). unfold buf_of_bytes, buf_valid. pose proof (split_lines_valid ks Hks [] ltac:(constructor)) as V. cbn [chars flat_map rev] in V.
+  induction V as [|x xs Hx _ IH]; cbn [map]; constructor; [apply chop_valid, Hx|exact IH].
+Qed.
+Lemma init_file_valid s : valid s -> est_valid (init_est (buf_of_bytes s)).
+Proof. intro H. apply init_est_valid, buf_of_bytes_valid, H. Qed.
